@@ -83,6 +83,8 @@ def base_cases(rnd, n, prefix, bnodes=True, schema_share=.3, inverse=None, ors=F
             T = gen.schema_graph(rnd, bnodes=bnodes)
         elif bnodes and r < schema_share + .25:
             T = gen.dense_graph(rnd)
+        elif r > .85:
+            T = gen.multi_graph(rnd)
         else:
             T = gen.general_graph(rnd, bnodes=bnodes, max_nodes=6)
         cfg = gen.switches(rnd, inverse=inverse, ors=ors)
@@ -149,6 +151,15 @@ def check_c12(out, tier):
         pairs = [(i, j) for i in range(len(grid)) for j in range(i, len(grid))]
         for (i, j) in rnd.sample(pairs, 3 if tier == "quick" else 8):
             items.append({"id": "%s.%d.%d" % (c["id"], i, j), "rel": "thr", "a": with_cfg(c, thr=grid[i]), "b": with_cfg(c, thr=grid[j])})
+    # multi-valued properties: several exact cardinalities compete with '+' for one (property, kind); interior thresholds filter
+    # some of them, and with keep_less_specific the '+' line is a fact about '+' at every threshold
+    for i in range(40 * k):
+        c = gen.case("c12m%d" % i, gen.multi_graph(rnd), **gen.switches(rnd))
+        if rnd.random() < .5:
+            c = with_cfg(c, disableExact=True, keepLess=True, allCompliant=rnd.random() < .4)
+        pairs = [(a, b) for a in range(len(grid)) for b in range(a, len(grid))]
+        for (a, b) in rnd.sample(pairs, 3 if tier == "quick" else 8):
+            items.append({"id": "%s.%d.%d" % (c["id"], a, b), "rel": "thr", "a": with_cfg(c, thr=grid[a]), "b": with_cfg(c, thr=grid[b])})
     campaign(out, "C12", items, mine)
     pinned_campaigns(out, "C12", mine)
     # the two end points are absolute statements: threshold 0 omits nothing observed, threshold 1 keeps only universal features
